@@ -310,6 +310,31 @@ DsCov(ev) == Cov("C25_StoreMatchesPool", SyncIds(ev) # {}) \cup Cov("C25_ClientC
              \cup Cov("C25_StoreMatchesPool_Held", \E i \in SyncIds(ev) : SyncRec(ev, i).held)
              \cup Cov("C25_StoreMatchesPool_MultiFlow", \E i \in SyncIds(ev) : Cardinality(SyncRec(ev, i).flows) > 1)
 
+\* xtriggers (C33)
+XtCallViol(ev) ==
+     Chk("C33_OneInFlight", ev.sig \notin env.xtActive)
+  \cup Chk("C33_IntervalRespected",
+           (ev.sig \in DOMAIN env.xtLast /\ ev.sig \notin env.xtLastOK) => ev.clock - env.xtLast[ev.sig] >= ev.intvl)
+  \* recorded separately (known finding): housekeeping of a succeeded signature also forgets its next-call time,
+  \* so a task that needs the same signature later has it called again at once
+  \cup Chk("C33_IntervalRespected_AfterSuccess",
+           (ev.sig \in DOMAIN env.xtLast /\ ev.sig \in env.xtLastOK) => ev.clock - env.xtLast[ev.sig] >= ev.intvl)
+  \cup Chk("C33_IntervalFromConfig", ev.label \in DOMAIN W.xtintvl => ev.intvl = W.xtintvl[ev.label])
+  \* no new call while a task that was waiting for this signature when it succeeded is still waiting for it
+  \cup Chk("C33_NoCallAfterSuccessWhileNeeded",
+           ev.sig \in DOMAIN env.xtNeeders =>
+              \A i \in env.xtNeeders[ev.sig] \cap DOMAIN pool : ev.sig \notin pool[i].xneed)
+XtCallCov(ev) == {"C33_OneInFlight"} \cup Cov("C33_IntervalRespected", ev.sig \in DOMAIN env.xtLast)
+                 \cup Cov("C33_CallAgainAfterHousekeeping", ev.sig \in env.xtEverOK)
+\* at the end of an iteration: every released waiting task that depends on a signature which had already
+\* succeeded before the previous iteration ended is satisfied
+XtLoopViol(ev) ==
+  Chk("C33_AllDependentsSatisfied",
+      \A i \in SyncIds(ev) : LET s == SyncRec(ev, i) IN
+         (s.st = "waiting" /\ ~s.rh /\ ~s.queued /\ i \in DOMAIN pool /\ pool[i].st = "waiting" /\ ~pool[i].rh)
+            => \A g \in s.xneed \cap env.xtOKold : ~(g \in DOMAIN env.xtNeeders /\ i \in env.xtNeeders[g]))
+XtLoopCov(ev) == Cov("C33_AllDependentsSatisfied", env.xtOKold # {})
+
 \* commands
 AllAtomKeysT(t, p) == {AtomKey(W, a, p) : a \in UNION {Atoms(L.lhs) : L \in Deps(W, t, p)}}
 CmdDoneViol(ev) ==
@@ -560,6 +585,16 @@ NextEnv(ev) ==
                                           !.jobsSinceBoot = @ \cup {ev.job},
                                           \* a fresh run of this job: what the previous run sent no longer counts
                                           !.seenMsgs = {m \in @ : ~(m[1] = <<ev.job[1], ev.job[2]>> /\ m[2] = ev.job[3])}]
+    [] ev.e = "xt_call" -> [env EXCEPT !.xtActive = @ \cup {ev.sig},
+                                       !.xtLast = [x \in DOMAIN @ \cup {ev.sig} |-> IF x = ev.sig THEN ev.clock ELSE @[x]]]
+    [] ev.e = "xt_ret" -> [env EXCEPT !.xtActive = @ \ {ev.sig},
+                                      !.xtOK = IF ev.ok THEN @ \cup {ev.sig} ELSE @,
+                                      !.xtNeeders = IF ev.ok
+                                                    THEN [x \in DOMAIN @ \cup {ev.sig} |->
+                                                            IF x = ev.sig THEN {i \in DOMAIN pool : ev.sig \in pool[i].xneed} ELSE @[x]]
+                                                    ELSE @,
+                                      !.xtEverOK = IF ev.ok THEN @ \cup {ev.sig} ELSE @,
+                                      !.xtLastOK = IF ev.ok THEN @ \cup {ev.sig} ELSE @ \ {ev.sig}]
     [] ev.e = "spawn" -> [env EXCEPT !.spawnedSinceBoot = @ \cup {ev.t.id}, !.flowsEver = @ \cup ev.t.flows]
     [] ev.e = "flow" -> [env EXCEPT !.flowsEver = @ \cup {ev.got} \cup ev.known]
     [] ev.e = "cmd" ->
@@ -591,6 +626,12 @@ NextEnv(ev) ==
     [] ev.e \in {"loop_end", "boot"} ->
          [env EXCEPT !.stop = ev.stop_point, !.tohold = ev.tasks_to_hold, !.holdpt = ev.hold_point,
                      !.flowctr = ev.flow_counter,
+                     \* a succeeded signature is forgotten once no pooled task still waits for it
+                     !.xtOK = IF ev.e = "loop_end"
+                              THEN {g \in @ : \E i \in SyncIds(ev) : g \in SyncRec(ev, i).xneed} ELSE {},
+                     !.xtOKold = IF ev.e = "loop_end" THEN env.xtOK ELSE {},
+                     !.xtActive = IF ev.e = "boot" THEN {} ELSE @,
+                     !.xtLast = IF ev.e = "boot" THEN <<>> ELSE @,
                      !.committed = IF ev.e = "loop_end" /\ ev.hasdb THEN @ \cup ev.dbstates ELSE @,
                      !.poolcommitted = @ \/ (ev.e = "loop_end" /\ ev.hasdb /\ ev.dbpool # <<>>),
                      !.lostAtCrash = IF ev.e = "boot" /\ ev.restart /\ env.downkind = "crash"
@@ -608,7 +649,8 @@ Violations(ev) ==
     [] ev.e = "msg" -> MsgViol(ev)
     [] ev.e = "q_release" -> QReleaseViol(ev)
     [] ev.e = "rh_compute" -> RhViol(ev)
-    [] ev.e = "loop_end" -> LoopEndViol(ev)
+    [] ev.e = "loop_end" -> LoopEndViol(ev) \cup XtLoopViol(ev)
+    [] ev.e = "xt_call" -> XtCallViol(ev)
     [] ev.e = "set_stop" -> Chk("C03_ShutdownQuiescent", SetStopViol(ev))
     [] ev.e = "stall" -> Chk("C03_StallIsReal", StallViol(ev))
     [] ev.e = "end" -> EndViol(ev)
@@ -630,7 +672,8 @@ Covered(ev) ==
     [] ev.e = "msg" -> MsgCov(ev)
     [] ev.e = "q_release" -> QReleaseCov(ev)
     [] ev.e = "rh_compute" -> RhCov(ev)
-    [] ev.e = "loop_end" -> LoopEndCov(ev)
+    [] ev.e = "loop_end" -> LoopEndCov(ev) \cup XtLoopCov(ev)
+    [] ev.e = "xt_call" -> XtCallCov(ev)
     [] ev.e = "set_stop" -> Cov("C03_ShutdownQuiescent", ev.mode = "AUTO")
     [] ev.e = "stall" -> {"C03_StallIsReal"}
     [] ev.e = "end" -> EndCov(ev)
@@ -651,7 +694,7 @@ Init == /\ tid \in DOMAIN Runs
         /\ done = {}
         /\ hist = <<>>
         /\ env = [stop |-> NoPoint, tohold |-> {}, holdpt |-> NoPoint, restarted |-> FALSE, incomplete |-> FALSE,
-                  prestop |-> <<>>, prescal |-> <<>>, downkind |-> "none", committed |-> {}, poolcommitted |-> FALSE, lostAtCrash |-> {}, earlyCrash |-> FALSE, hadStopTask |-> FALSE, hadDup |-> FALSE, committedAtCrash |-> {}, jobsSinceBoot |-> {}, spawnedSinceBoot |-> {}, jobs |-> {}, succeeded |-> {}, failedjobs |-> {}, tainted |-> {}, seenMsgs |-> {}, flowsEver |-> {},
+                  prestop |-> <<>>, prescal |-> <<>>, downkind |-> "none", committed |-> {}, poolcommitted |-> FALSE, lostAtCrash |-> {}, earlyCrash |-> FALSE, hadStopTask |-> FALSE, hadDup |-> FALSE, committedAtCrash |-> {}, jobsSinceBoot |-> {}, spawnedSinceBoot |-> {}, jobs |-> {}, succeeded |-> {}, failedjobs |-> {}, tainted |-> {}, seenMsgs |-> {}, xtActive |-> {}, xtLast |-> <<>>, xtOK |-> {}, xtOKold |-> {}, xtEverOK |-> {}, xtLastOK |-> {}, xtNeeders |-> <<>>, flowsEver |-> {},
                   trig |-> [ids |-> {}, done |-> {}, n |-> <<>>, dflt |-> FALSE, live |-> {}], cmdpre |-> <<>>, cmdname |-> "none", cmdids |-> {},
                   cmdflow |-> {}, forcedSince |-> {}, completedIn |-> {}, flowctr |-> 0]
         /\ viol = {}
